@@ -199,7 +199,9 @@ def policyMonitor (d : TD) (toks : List String) (prevS impl : String) : List Str
         else (if n.checks == m.checks / 3 || n.checks == m.checks then [] else ["credit_rule"])
       | _, _ => []
     else []
-  m1 ++ m2 ++ m3 ++ m4 ++ m5
+  -- the liveness result handed to the table is the PING's result (a failed follow-up record request is not a failed check)
+  let m6 := if op == "revalresp" && kv toks "reported" != "" && kv toks "reported" != kv toks "responded" then ["liveness_result_is_ping_result"] else []
+  m1 ++ m2 ++ m3 ++ m4 ++ m5 ++ m6
 
 def parseRecRef (d : TD) (s : String) : Option Rec := recOf d ((s.drop 1).toNat!)
 
